@@ -567,6 +567,19 @@ func c10MsgClass(k string) string {
 // ---------------------------------------------------------------------------
 // derivations agree (in-process)
 
+// c10BoolSpelling writes a YAML boolean in one of the spellings of the core schema.
+func c10BoolSpelling(r *Rand, v bool) string {
+	if !v && r.Chance(1, 6) {
+		// a value given by an expression is not known statically: both derivations must treat it
+		// as "not required" (only used where the reference says false)
+		return r.Pick([]string{"${{ true }}", "${{ false }}", "${{ 1 == 1 }}", "\"${{ !true }}\""})
+	}
+	if v {
+		return r.Pick([]string{"true", "true", "True", "TRUE"})
+	}
+	return r.Pick([]string{"false", "false", "False", "FALSE"})
+}
+
 func c10Derivations(c *Case) {
 	root := mkScratch("c10d")
 	defer os.RemoveAll(root)
@@ -590,7 +603,7 @@ func c10Derivations(c *Case) {
 		ins = append(ins, x)
 		b.WriteString("      " + x.name + ":\n        type: " + x.typ + "\n")
 		if c.R.Chance(1, 2) || x.req {
-			b.WriteString(fmt.Sprintf("        required: %v\n", x.req))
+			b.WriteString("        required: " + c10BoolSpelling(c.R, x.req) + "\n")
 		}
 		if x.def {
 			b.WriteString("        default: " + map[string]string{"string": "abc", "number": "3", "boolean": "true"}[x.typ] + "\n")
@@ -614,7 +627,7 @@ func c10Derivations(c *Case) {
 		if c.R.Chance(1, 4) && !s.req {
 			b.WriteString("      " + s.name + ":\n        description: d\n")
 		} else {
-			b.WriteString(fmt.Sprintf("      %s:\n        required: %v\n", s.name, s.req))
+			b.WriteString(fmt.Sprintf("      %s:\n        required: %s\n", s.name, c10BoolSpelling(c.R, s.req)))
 		}
 	}
 	no := c.R.Intn(4)
@@ -694,7 +707,25 @@ func c10Derivations(c *Case) {
 	}
 	a, f := ser(ma), ser(mf)
 	if a != f {
-		c.Violation("C10:derivations-disagree", "the interface of a well-formed reusable workflow derived from its file differs from the one derived from its AST", map[string]interface{}{"src": src, "from_file": f, "from_ast": a})
+		cls := "entries"
+		al, fl := strings.Split(a, "\n"), strings.Split(f, "\n")
+		if len(al) == len(fl) {
+			for i := range al {
+				if al[i] == fl[i] {
+					continue
+				}
+				x, y := strings.Fields(al[i]), strings.Fields(fl[i])
+				cls = "other-field"
+				for k := 0; k < len(x) && k < len(y); k++ {
+					if x[k] != y[k] {
+						cls = x[0] + "-" + strings.SplitN(x[k], "=", 2)[0]
+						break
+					}
+				}
+				break
+			}
+		}
+		c.Violation("C10:derivations-disagree:"+cls, "the interface of a well-formed reusable workflow derived from its file differs from the one derived from its AST", map[string]interface{}{"src": src, "from_file": f, "from_ast": a})
 		return
 	}
 	if ni+ns+no > 0 {
